@@ -430,6 +430,9 @@ def rollup_case(cfg, tables, d, rollup_main):
     for p in prefixes:
         for kind in ("targets", "decoys"):
             fn = "%s.%s.psms" % (p, kind)
+            if not (out / fn).exists():
+                return [("result-file-missing", "assign_confidence did not write %s (directory holds %s)"
+                         % (fn, sorted(os.listdir(out))))]
             os.rename(out / fn, src / fn)
             t = pd.read_csv(src / fn, sep="\t")
             t["target"] = kind == "targets"
